@@ -109,9 +109,12 @@ CompatAnswer(act, ext, u) ==
 ConvProbes == { <<"c","a">>, <<"e","a">>, <<"a","b">>, <<"b","a">>, <<"new1","a">>, <<"kc","a">>, <<"e","kc">> }
 ProbeKeys == {<<"conv", pr[1], pr[2]>> : pr \in ConvProbes}
              \cup {<<"base", "e", "">>, <<"base", "f", "">>, <<"gbase", "f", "">>, <<"gbase", "e", "">>, <<"base", "new1", "">>, <<"root", "e", "">>, <<"compat", "a", "">>, <<"compat", "b", "">>}
+             \* ureg.get_base_units(unit, system=s): the answer for system s whatever the default system is
+             \cup {<<"sbase", u, s>> : u \in {"e", "f"}, s \in DOMAIN Systems}
 Answer(act, ext, sys, k) ==
     CASE k[1] = "conv" -> ConvAnswers(act, ext, R(3), k[2], k[3])
       [] k[1] \in {"base", "gbase"} -> {BaseAnswer(act, ext, sys, k[2])}      \* Quantity.to_base_units / ureg.get_base_units
+      [] k[1] = "sbase" -> {BaseAnswer(act, ext, k[3], k[2])}
       [] k[1] = "root" -> {RootAnswer(act, ext, k[2])}
       [] k[1] = "compat" -> {CompatAnswer(act, ext, k[2])}
 ObsOf(act, ext, sys) == TLCEval([k \in ProbeKeys |-> Answer(act, ext, sys, k)])
@@ -155,7 +158,7 @@ Query(k) == /\ "query" \in Alphabet /\ asked' = Append(asked, k)
             /\ UNCHANGED <<active, frames, extra, defsys>> /\ Log(<<"query", k>>, "ok")
 
 Init == active = <<>> /\ frames = <<>> /\ extra = {} /\ defsys = "none" /\ asked = <<>> /\ hist = <<>>
-QueryKeys == {<<"conv", "e", "a">>, <<"conv", "kc", "a">>, <<"gbase", "f", "">>, <<"compat", "a", "">>}
+QueryKeys == {<<"conv", "e", "a">>, <<"conv", "kc", "a">>, <<"gbase", "f", "">>, <<"compat", "a", "">>} \cup {<<"sbase", "e", s>> : s \in DOMAIN Systems}
 Next == /\ Len(hist) < MaxOps
         /\ \/ \E c \in DOMAIN CtxPool, kw \in KwVals \cup {NoParam} :
                 (kw = NoParam \/ CtxPool[c].default # NoParam) /\ (Enable(c, kw) \/ EnableFails(c, kw))
